@@ -1181,7 +1181,12 @@ func (g *gen) selfNestedCases() []Case {
 		funcs := strings.Join(g.layoutDef(d.name+" "+d.body(params), &cont), "\n") + "\n"
 		// (call text, inlined text) of a nest: position pos holds an inner call, to the given depth
 		var nest func(pos, depth int) (string, string)
-		leaf := func() string { return Pick(r, leaves) }
+		leaf := func() string {
+			if strings.HasPrefix(d.name, "add") {
+				return Pick(r, []string{"{0}", "{1}", "{2}", "3", "7"}) // numeric constants for the arithmetic bodies
+			}
+			return Pick(r, leaves)
+		}
 		nest = func(pos, depth int) (string, string) {
 			args, inl := make([]string, d.arity), make([]string, d.arity)
 			for i := range args {
